@@ -14,6 +14,9 @@ CHECKS = {
  'C16': dict(cat='model_checking', design='5/C16', technique='TLA+ transcription of the RFC 7386 MergePatch pseudo-code; TLC enumerates all document pairs with predicted result (replayed), and validates every recorded from_diff output as a trace against the spec',
    text='TLC enumerates every ordered pair of a bounded document universe (depth 2, keys a/b, null/bool/int/string scalars, arrays) with Merge(target, patch) predicted by the spec; apply_merge_patch is replayed for json and ojson. Every diff produced by from_diff is recorded and validated by the TLC trace spec Trace_C16: the spec Merge applied to the recorded diff must equal the target.',
    note='Bounded-exhaustive over the stated universe (25.6k pairs quick, 1.6M thorough). The diff-law side condition is taken strictly (no null member anywhere in the target).'),
+ 'C14': dict(cat='model_checking', design='5/C14', technique='TLA+ spec of RFC 6901 (tokenizer state machine, printer, evaluation, edit operations, flatten); TLC checks parse/print round trips in the model and enumerates cases with predicted outcomes, replayed through the jsonpointer API',
+   text='TLC enumerates every pointer string over a 7-character alphabet (tokenizer verdict, tokens, printed form) and every (document, token sequence, operation, create_if_missing) tuple over a bounded universe with the predicted outcome and resulting document; the harness replays them through the string and json_pointer APIs for json and ojson and requires a failed operation to leave the document unchanged. Flatten/unflatten are checked on documents with escape-needing keys.',
+   note='Bounded-exhaustive over the stated universes. Edit-operation semantics beyond RFC 6901 come from the jsoncons reference documentation.'),
 }
 NA = {}
 
